@@ -673,7 +673,7 @@ class Cone(Quadric):
         if radius == 0:
             raise ValueError("The radius of a cone can not be zero.")
 
-        from geometer.operators import angle, dist
+        from geometer.operators import dist
 
         h = dist(vertex, base_center)
         c = (radius / h) ** 2
@@ -702,9 +702,11 @@ class Cone(Quadric):
         new_axis = Line(vertex, base_center)
 
         if new_axis != axis:
-            a = angle(axis, new_axis)
-            e = axis.join(new_axis)
-            t = rotation(a, axis=Point(*e.array[:3]))
+            # rotate about the common normal of the z-axis and the new axis by the (unoriented) angle between them
+            d = np.real(new_axis.direction.array[:3])
+            n = np.cross([0, 0, 1], d)
+            a = np.arctan2(np.linalg.norm(n), d[2])
+            t = rotation(a, axis=Point(*n))
             t = translation(v) * t * translation(-v)
             m = t.array.T.dot(m).dot(t.array)
 
